@@ -599,7 +599,37 @@ inline void unregister_all() {
     P::classes.clear();
 }
 
+// In a real program every list of type ids is a static of
+// type_id_list<Policy, types<...>>: class records, methods and definitions
+// that name the same sequence of types share ONE array (and, with deferred
+// ids, one in-band "resolved" flag). The harness reproduces that sharing.
+struct ListPool {
+    static constexpr int N = 4 * rx::MAXR + 64, W = rx::MAXC + 4;
+    type_id store[N][W];
+    int len[N];
+    int n = 0;
+};
+inline ListPool* g_lists;
+inline type_id* intern_list(const type_id* ids, int n) {
+    if (!g_lists)
+        g_lists = zalloc<ListPool>(1);
+    ListPool& p = *g_lists;
+    for (int i = 0; i < p.n; ++i)
+        if (p.len[i] == n && memcmp(p.store[i], ids, n * sizeof(type_id)) == 0)
+            return p.store[i];
+    if (p.n == ListPool::N) {
+        fprintf(stderr, "list pool exhausted\n");
+        exit(2);
+    }
+    memcpy(p.store[p.n], ids, n * sizeof(type_id));
+    p.store[p.n][n] = 0; // deferred: "not resolved yet" flag word
+    p.len[p.n] = n;
+    return p.store[p.n++];
+}
+
 inline void fill_records(const rx::Registry& r) {
+    if (g_lists)
+        g_lists->n = 0;
     for (int i = 0; i < r.nr; ++i) {
         const rx::Rec& rec = r.recs[i];
         RecStore& s = g_recs[i];
@@ -615,8 +645,8 @@ inline void fill_records(const rx::Registry& r) {
             s.info.first_base = d::type_id_list<P, d::types<>>::begin;
             s.info.last_base = d::type_id_list<P, d::types<>>::end;
         } else {
-            s.info.first_base = s.bases;
-            s.info.last_base = s.bases + rec.nb;
+            s.info.first_base = intern_list(s.bases, rec.nb);
+            s.info.last_base = s.info.first_base + rec.nb;
         }
         P::classes.push_back(s.info);
     }
@@ -634,8 +664,8 @@ inline void fill_methods(const rx::Registry& r) {
         for (int k = 0; k < m.arity; ++k)
             vp[k] = reg_id(m.vp[k], (m.vp_alias >> k) & 1);
         vp[m.arity] = 0;
-        o.info->vp_begin = vp;
-        o.info->vp_end = vp + m.arity;
+        o.info->vp_begin = intern_list(vp, m.arity);
+        o.info->vp_end = o.info->vp_begin + m.arity;
         P::methods.push_back(*o.info);
         for (int di = 0; di < m.nd; ++di) {
             DefStore& s = g_defs[m.shape * rx::MAXD + di];
@@ -646,8 +676,8 @@ inline void fill_methods(const rx::Registry& r) {
             for (int k = 0; k < m.arity; ++k)
                 s.vp[k] = reg_id(m.def[di][k], (m.def_alias[di] >> k) & 1);
             s.vp[m.arity] = 0;
-            s.info.vp_begin = s.vp;
-            s.info.vp_end = s.vp + m.arity;
+            s.info.vp_begin = intern_list(s.vp, m.arity);
+            s.info.vp_end = s.info.vp_begin + m.arity;
             s.info.pf = o.pf[di];
             s.next = (void*)0x1; // poison: update must overwrite
             o.info->specs.push_back(s.info);
